@@ -114,6 +114,8 @@ func (l *listener) listenLoop() {
 				conn := newStreamWrapper(stream, stream.LocalAddr(), stream.RemoteAddr(), wg)
 				select {
 				case <-l.closeCh:
+					// nobody will accept this conn any more, release its reference on the session
+					_ = conn.Close()
 					return
 				case l.backlog <- conn:
 				}
@@ -150,6 +152,16 @@ func (l *listener) Close() (err error) {
 	}
 	l.sessions = map[*Session]*sync.WaitGroup{}
 	l.mu.Unlock()
+	// nobody will accept what is still queued; release the references those conns hold
+	for {
+		select {
+		case conn := <-l.backlog:
+			_ = conn.Close()
+			continue
+		default:
+		}
+		break
+	}
 	return
 }
 
